@@ -135,7 +135,20 @@ def _t1(ctx: Context) -> None:
             if ft[0] == "attr" and ft[2] == "encrypt":
                 enc_nodes.append(n)
     if not enc_nodes:
-        ck.violated("C05.T1", f"{ctx.fkey(f)}:no-encrypt", "send_bytes no longer encrypts the payload", f.loc())
+        # the encryption may sit in a function send_bytes calls that the loader could not inline (a generator drained with
+        # list(), a helper with a loop that is used in several places): then the framing is not in this function and not decided
+        helpers = []
+        for n in cfg.nodes:
+            for c in ctx.calls(n):
+                for q_ in ctx.callee_names(f, c):
+                    g_ = ctx.prog.functions.get(q_)
+                    if g_ is not None and not isinstance(g_.node, ast.Lambda) and any(isinstance(x_, ast.Call) and isinstance(x_.func, ast.Attribute) and x_.func.attr == "encrypt"
+                                                                                      for x_ in ast.walk(g_.node)):
+                        helpers.append(q_)
+        if helpers:
+            ck.unknown("C05.T1", f"send_bytes: the frames are encrypted in {sorted(set(helpers))[0].rsplit('.', 1)[-1]}, which is not read as part of send_bytes (generator / shared helper): framing not decided", f.loc())
+        else:
+            ck.violated("C05.T1", f"{ctx.fkey(f)}:no-encrypt", "send_bytes no longer encrypts the payload", f.loc())
         return
     # several encrypt sites (e.g. a single-frame fast path next to the framing loop): the framing loop is where one sits in a loop
     enc_nodes.sort(key=lambda n: not any(fr[0] == "loop" and fr[2] == "body" for fr in n.frames))
